@@ -243,44 +243,142 @@ Proof.
 Qed.
 
 (* ---------------------------------------------------------------- shifts *)
-Definition sh_value (t : ity) (o : sop) (x n : Z) : Z :=
-  match o with Shl => wrap t (x * 2 ^ n) | Shr => Z.shiftr x n end.
-
 Lemma width_small : forall t, 0 < width t <= 128.
 Proof. destruct t; cbn; lia. Qed.
 
-Lemma shift_arm_try : forall t inj o x y,
-  meets (if (0 <=? y) && (y <? width t) then Exact (inj (sh_value t o x y)) else Undefined)
-        (shift_arm t inj o x (try_u32 y)).
+(* the fixed-width pattern differs from the value by a multiple of 2^width *)
+Lemma wrap_congr : forall t z, exists k, wrap t z = z + k * 2 ^ width t.
 Proof.
-  intros t inj o x y. pose proof (width_small t) as W. unfold shift_arm, try_u32, checked_sh, sh_value.
+  intros t z. destruct t; cbn [wrap width].
+  - exists (- ((z + 2147483648) / 4294967296)). change (2 ^ 32) with 4294967296.
+    pose proof (Z.div_mod (z + 2147483648) 4294967296 ltac:(lia)). lia.
+  - exists (- ((z + 170141183460469231731687303715884105728) / 340282366920938463463374607431768211456)).
+    change (2 ^ 128) with 340282366920938463463374607431768211456.
+    pose proof (Z.div_mod (z + 170141183460469231731687303715884105728) 340282366920938463463374607431768211456 ltac:(lia)). lia.
+  - exists (- (z / 256)). change (2 ^ 8) with 256.
+    pose proof (Z.div_mod z 256 ltac:(lia)). lia.
+Qed.
+
+(* ExactShl: shifting the truncated result back restores the operand exactly when no bit was lost,
+   i.e. when the exact value x * 2^n is representable *)
+Lemma shl_back : forall t x n, 0 <= n < width t ->
+  (Z.shiftr (wrap t (x * 2 ^ n)) n =? x) = in_range t (x * 2 ^ n).
+Proof.
+  intros t x n Hn.
+  assert (Hp : 0 < 2 ^ n) by (apply Z.pow_pos_nonneg; lia).
+  destruct (in_range t (x * 2 ^ n)) eqn:R.
+  - rewrite (wrap_id _ _ R). apply Z.eqb_eq.
+    rewrite Z.shiftr_div_pow2 by lia. apply Z.div_mul. lia.
+  - apply Z.eqb_neq. intros E.
+    destruct (wrap_congr t (x * 2 ^ n)) as [k Hk].
+    assert (Hw : 2 ^ width t = 2 ^ (width t - n) * 2 ^ n)
+      by (rewrite <- Z.pow_add_r by lia; f_equal; lia).
+    assert (Hq : 0 < 2 ^ (width t - n)) by (apply Z.pow_pos_nonneg; lia).
+    rewrite Z.shiftr_div_pow2 in E by lia.
+    rewrite Hk, Hw in E.
+    replace (x * 2 ^ n + k * (2 ^ (width t - n) * 2 ^ n)) with ((x + k * 2 ^ (width t - n)) * 2 ^ n) in E by ring.
+    rewrite Z.div_mul in E by lia.
+    assert (k = 0) by nia. subst k.
+    rewrite Z.mul_0_l, Z.add_0_r in Hk.
+    pose proof (wrap_in_range t (x * 2 ^ n)) as W. rewrite Hk in W. congruence.
+Qed.
+
+(* what the specification demands of one shift arm at type t *)
+Definition sh_spec (t : ity) (inj : Z -> value) (o : sop) (x n : Z) : sres :=
+  if (0 <=? n) && (n <? width t)
+  then match o with
+       | Shl => if in_range t (x * 2 ^ n) then Exact (inj (x * 2 ^ n)) else Undefined
+       | Shr => Exact (inj (Z.shiftr x n))
+       end
+  else Undefined.
+
+(* the exact shift function meets it; the original one whenever no bit is lost *)
+Definition sh_good (f : ity -> sop -> Z -> Z -> option Z) (t : ity) (o : sop) (x : Z) : Prop :=
+  forall n, 0 <= n < width t ->
+    f t o x n = match o with
+                | Shl => if in_range t (x * 2 ^ n) then Some (x * 2 ^ n) else None
+                | Shr => Some (Z.shiftr x n)
+                end.
+Definition sh_range (f : ity -> sop -> Z -> Z -> option Z) (t : ity) (o : sop) (x : Z) : Prop :=
+  forall n, width t <= n -> f t o x n = None.
+
+Lemma exact_sh_good : forall t o x, sh_good exact_sh t o x.
+Proof.
+  intros t o x n Hn. unfold exact_sh, checked_sh.
+  destruct (Z.ltb_spec n (width t)); [|lia].
+  destruct o; [|reflexivity].
+  rewrite (shl_back t x n Hn). destruct (in_range t (x * 2 ^ n)) eqn:R; [|reflexivity].
+  rewrite (wrap_id _ _ R). reflexivity.
+Qed.
+
+Lemma exact_sh_range : forall t o x, sh_range exact_sh t o x.
+Proof.
+  intros t o x n Hn. unfold exact_sh, checked_sh.
+  destruct (Z.ltb_spec n (width t)); [lia|]. destruct o; reflexivity.
+Qed.
+
+Lemma checked_sh_good : forall t o x,
+  (o = Shl -> forall n, 0 <= n < width t -> in_range t (x * 2 ^ n) = true) ->
+  sh_good checked_sh t o x.
+Proof.
+  intros t o x H n Hn. unfold checked_sh.
+  destruct (Z.ltb_spec n (width t)); [|lia].
+  destruct o; [|reflexivity].
+  rewrite (H eq_refl n Hn). rewrite (wrap_id _ _ (H eq_refl n Hn)). reflexivity.
+Qed.
+
+Lemma checked_sh_range : forall t o x, sh_range checked_sh t o x.
+Proof.
+  intros t o x n Hn. unfold checked_sh. destruct (Z.ltb_spec n (width t)); [lia|reflexivity].
+Qed.
+
+Lemma sh_fn_meets : forall f t inj o x n, sh_good f t o x -> sh_range f t o x -> 0 <= n ->
+  meets (sh_spec t inj o x n) (match f t o x n with Some z => Ok (inj z) | None => Err end).
+Proof.
+  intros f t inj o x n G R Hn. unfold sh_spec.
+  destruct (Z.leb_spec 0 n); [|lia]. cbn [andb].
+  destruct (Z.ltb_spec n (width t)).
+  - rewrite (G n ltac:(lia)). destruct o; [|reflexivity].
+    destruct (in_range t (x * 2 ^ n)); cbn; auto.
+  - rewrite (R n ltac:(lia)). exact I.
+Qed.
+
+Lemma shift_arm_try : forall f t inj o x y, sh_good f t o x -> sh_range f t o x ->
+  meets (sh_spec t inj o x y) (shift_arm f t inj o x (try_u32 y)).
+Proof.
+  intros f t inj o x y G R. pose proof (width_small t) as W. unfold shift_arm, try_u32.
   destruct (Z.leb_spec 0 y); cbn [andb].
   - destruct (Z.leb_spec y 4294967295); cbn [andb].
-    + destruct (Z.ltb_spec y (width t)); cbn; auto.
-    + destruct (Z.ltb_spec y (width t)); cbn; auto. lia.
-  - cbn. exact I.
+    + apply sh_fn_meets; assumption.
+    + unfold sh_spec. destruct (Z.ltb_spec y (width t)); [lia|]. rewrite andb_false_r. exact I.
+  - unfold sh_spec. destruct (Z.leb_spec 0 y); [lia|]. exact I.
 Qed.
 
-Lemma shift_arm_byte : forall t inj o x y, 0 <= y ->
-  meets (if (0 <=? y) && (y <? width t) then Exact (inj (sh_value t o x y)) else Undefined)
-        (shift_arm t inj o x (Some y)).
-Proof.
-  intros t inj o x y Hy. unfold shift_arm, checked_sh, sh_value.
-  destruct (Z.leb_spec 0 y); [|lia]. cbn [andb].
-  destruct (Z.ltb_spec y (width t)); cbn; auto.
-Qed.
+Lemma shift_arm_byte : forall f t inj o x y, sh_good f t o x -> sh_range f t o x -> 0 <= y ->
+  meets (sh_spec t inj o x y) (shift_arm f t inj o x (Some y)).
+Proof. intros f t inj o x y G R Hy. unfold shift_arm. apply sh_fn_meets; assumption. Qed.
 
-(* << >>, every pair of numeric kinds, all values and shift amounts *)
-Theorem shift_exact : forall o a b, wf a -> wf b -> is_num a -> is_num b ->
-  meets (spec_shift o a b) (shift_op o a b).
+(* << >> with a shift function that is good on the (promoted) left operand: every pair of numeric kinds,
+   all values and shift amounts *)
+Lemma shift_meets : forall v o a b, wf a -> wf b -> is_num a -> is_num b ->
+  (forall t, sh_good (sh_fn v) t o (Zval a)) -> (forall t, sh_range (sh_fn v) t o (Zval a)) ->
+  meets (spec_shift o a b) (shift_op v o a b).
 Proof.
-  intros o a b Ha Hb Na Nb.
+  intros v o a b Ha Hb Na Nb G R.
   destruct a as [x|x|x|x|x], b as [y|y|y|y|y]; try not_num Na; try not_num Nb;
-  unfold spec_shift, shift_op;
+  unfold spec_shift, shift_op, repr;
   cbn [kind_of promote Zval ity_of wf mk] in *; widen; try exact I.
-  all: try (apply (shift_arm_try I32 Int) || apply (shift_arm_try I128 Big)).
-  all: (apply (shift_arm_byte I32 Int) || apply (shift_arm_byte I128 Big) || apply (shift_arm_byte U8 Byte));
+  all: try (apply (shift_arm_try (sh_fn v) I32 Int) || apply (shift_arm_try (sh_fn v) I128 Big)); auto.
+  all: (apply (shift_arm_byte (sh_fn v) I32 Int) || apply (shift_arm_byte (sh_fn v) I128 Big) || apply (shift_arm_byte (sh_fn v) U8 Byte)); auto;
        apply in_range_iff in Hb; cbn in Hb; lia.
+Qed.
+
+Theorem shift_exact : forall o a b, wf a -> wf b -> is_num a -> is_num b ->
+  meets (spec_shift o a b) (shift_op Fixed o a b).
+Proof.
+  intros o a b Ha Hb Na Nb. apply shift_meets; auto; intros t.
+  - apply exact_sh_good.
+  - apply exact_sh_range.
 Qed.
 
 (* ---------------------------------------------------------------- ordering and equality *)
@@ -344,6 +442,8 @@ Proof.
   - unfold spec_shift in H. rewrite Ka, Kb in H.
     destruct (promote ka kb); cbn [ity_of mk] in H;
     try (match type of H with context [if ?c then _ else _] => destruct c end);
+    try discriminate; destruct o; unfold repr in H; cbn [ity_of mk] in H;
+    try (match type of H with context [in_range ?t ?e] => destruct (in_range t e) end);
     inversion H; reflexivity.
   - unfold spec_cmp in H. rewrite Ka, Kb in H. inversion H. reflexivity.
   - destruct (spec_eq a b); destruct o; inversion H; reflexivity.
@@ -361,7 +461,10 @@ Qed.
    binaries; repaired by the three fixes/num-*.diff, one per class):
      K1 float_by_byte_zero : `float / byte 0`, `float % byte 0` yield inf / NaN (zero guard misses Byte(0))
      K2 rem_min_by_m1      : `MIN % -1` panics although the exact remainder 0 is representable
-     K3 overflows          : in a release build an overflowing + - * (and unary minus of MIN) wraps around *)
+     K3 overflows          : in a release build an overflowing + - * (and unary minus of MIN) wraps around
+     K4 shl_loses_bits     : `x << n` with an admissible n whose exact value x * 2^n does not fit the result
+                             kind yields the truncated bit pattern (checked_shl only checks n); repaired by
+                             fixes/num-shl-lost-bits.diff *)
 Definition float_by_byte_zero (op : binop) (a b : value) : Prop :=
   exists o f, op = Arith o /\ is_divlike o = true /\ a = Flt f /\ b = Byte 0.
 
@@ -378,6 +481,15 @@ Definition overflows (op : binop) (a b : value) : Prop :=
   match kind_of a, kind_of b with
   | Some ka, Some kb => promote ka kb <> KFloat /\
                         in_range (ity_of (promote ka kb)) (exact_Z o (Zval a) (Zval b)) = false
+  | _, _ => False
+  end.
+
+Definition shl_loses_bits (op : binop) (a b : value) : Prop :=
+  op = Shift Shl /\
+  match kind_of a, kind_of b with
+  | Some ka, Some kb => promote ka kb <> KFloat /\
+                        0 <= Zval b < width (ity_of (promote ka kb)) /\
+                        in_range (ity_of (promote ka kb)) (Zval a * 2 ^ Zval b) = false
   | _, _ => False
   end.
 
@@ -425,14 +537,60 @@ Proof.
   all: intros -> [Hd Hr]; apply (Hov eq_refl); exists o; cbn; split; [reflexivity | split; [exact Hd | split; [discriminate | exact Hr]]].
 Qed.
 
+(* one arm of the original `<<` / `>>` (checked_shl / checked_shr): right unless a bit is lost *)
+Lemma shift_arm_orig_try : forall t inj o x y,
+  ~ (o = Shl /\ 0 <= y < width t /\ in_range t (x * 2 ^ y) = false) ->
+  meets (sh_spec t inj o x y) (shift_arm checked_sh t inj o x (try_u32 y)).
+Proof.
+  intros t inj o x y H. pose proof (width_small t) as W.
+  unfold shift_arm, try_u32, sh_spec, checked_sh.
+  destruct (Z.leb_spec 0 y); cbn [andb]; [|exact I].
+  destruct (Z.leb_spec y 4294967295); cbn [andb].
+  - destruct (Z.ltb_spec y (width t)); [|exact I].
+    destruct o; [|reflexivity].
+    destruct (in_range t (x * 2 ^ y)) eqn:R.
+    + rewrite (wrap_id _ _ R). reflexivity.
+    + exfalso. apply H. repeat split; auto; lia.
+  - destruct (Z.ltb_spec y (width t)); [lia|exact I].
+Qed.
+
+Lemma shift_arm_orig_byte : forall t inj o x y, 0 <= y ->
+  ~ (o = Shl /\ 0 <= y < width t /\ in_range t (x * 2 ^ y) = false) ->
+  meets (sh_spec t inj o x y) (shift_arm checked_sh t inj o x (Some y)).
+Proof.
+  intros t inj o x y Hy H. unfold shift_arm, sh_spec, checked_sh.
+  destruct (Z.leb_spec 0 y); [|lia]. cbn [andb].
+  destruct (Z.ltb_spec y (width t)); [|exact I].
+  destruct o; [|reflexivity].
+  destruct (in_range t (x * 2 ^ y)) eqn:R.
+  - rewrite (wrap_id _ _ R). reflexivity.
+  - exfalso. apply H. repeat split; auto; lia.
+Qed.
+
+Theorem shift_orig : forall m o a b, wf a -> wf b -> is_num a -> is_num b ->
+  ~ shl_loses_bits (Shift o) a b ->
+  meets (spec_shift o a b) (shift_op (Orig m) o a b).
+Proof.
+  intros m o a b Ha Hb Na Nb Hk.
+  destruct a as [x|x|x|x|x], b as [y|y|y|y|y]; try not_num Na; try not_num Nb;
+  unfold spec_shift, shift_op, repr, shl_loses_bits in *;
+  cbn [kind_of promote Zval ity_of wf mk sh_fn] in *; widen; try exact I.
+  all: try ((apply (shift_arm_orig_try I32 Int) || apply (shift_arm_orig_try I128 Big));
+            intros [-> [Hy Hr]]; apply Hk; repeat split; (discriminate || lia || exact Hr)).
+  all: (apply (shift_arm_orig_byte I32 Int) || apply (shift_arm_orig_byte I128 Big) || apply (shift_arm_orig_byte U8 Byte));
+       [ apply in_range_iff in Hb; cbn in Hb; lia
+       | intros [-> [Hy Hr]]; apply Hk; repeat split; (discriminate || lia || exact Hr) ].
+Qed.
+
 Theorem binop_orig : forall m op a b, wf a -> wf b -> is_num a -> is_num b ->
   ~ float_by_byte_zero op a b -> ~ rem_min_by_m1 op a b -> (m = Wrap -> ~ overflows op a b) ->
+  ~ shl_loses_bits op a b ->
   meets (spec_binop op a b) (binop_eval (Orig m) op a b).
 Proof.
-  intros m op a b Ha Hb Na Nb H1 H2 H3. destruct op as [o|o|o|o|o]; cbn [spec_binop binop_eval].
+  intros m op a b Ha Hb Na Nb H1 H2 H3 H4. destruct op as [o|o|o|o|o]; cbn [spec_binop binop_eval].
   - apply arith_orig; assumption.
   - apply bit_exact; assumption.
-  - apply shift_exact; assumption.
+  - apply shift_orig; assumption.
   - apply cmp_exact; assumption.
   - pose proof (equals_exact a b Ha Hb Na Nb) as H.
     destruct (spec_eq a b); [|contradiction]. rewrite H. destruct o; reflexivity.
@@ -479,6 +637,17 @@ Proof.
   split; [reflexivity|]. split; [reflexivity|]. split; [discriminate|]. split; [discriminate|].
   split; [split; [reflexivity | cbn; split; [discriminate | reflexivity]]|].
   split; [reflexivity | destruct m; reflexivity].
+Qed.
+
+Lemma orig_shl_refuted : forall m, exists op a b,
+  wf a /\ wf b /\ is_num a /\ is_num b /\ shl_loses_bits op a b /\
+  spec_binop op a b = Undefined /\ binop_eval (Orig m) op a b = Ok (Int (-2147483648)) /\
+  binop_eval Fixed op a b = Err.
+Proof.
+  intros m. exists (Shift Shl), (Int 3), (Int 31).
+  split; [reflexivity|]. split; [reflexivity|]. split; [discriminate|]. split; [discriminate|].
+  split; [split; [reflexivity | cbn; split; [discriminate | split; [lia | reflexivity]]]|].
+  split; [reflexivity|]. split; [destruct m; reflexivity | reflexivity].
 Qed.
 
 Lemma orig_neg_wrap_refuted :
